@@ -97,6 +97,10 @@ fixed("C05", "072d35c", "KernelPCovR(regressor='precomputed') with a 1-D Yhat ra
 fixed("C05", "d4a47d6", "KernelPCovR.score on a held-out set with V != N samples raised a matmul error, and gave a wrong value for V == N (K_VV where the documented loss has K_NN)")
 fixed("C05", "6f2bae2", "KernelPCovR(center=True).score centred K_VV as if it were a test-train kernel (-5.11 vs -5.67 by explicit feature-space centring; shape error for V != N)")
 
+# ------------------------------------------------------------------ C10
+fixed("C10", "a904241", "Ridge2FoldCV called the scorer with truth and prediction swapped: scoring='r2' gave cv_values_=-25.1 where explicit two-fold CV gives 0.256")
+fixed("C10", "5343c07", "Ridge2FoldCV kept rounding-noise singular directions (n = len(s > rcond); rcond applied absolutely): coefficients ~1e14 on X with a duplicated column and alpha=1e-30 / relative 0, wrong fold scores for sigma_1 > ~10")
+
 if __name__ == "__main__":
     out = {
         "comment": "Genuine defects of scikit-matter found by the monitors. status=known: recorded, not repaired, keyed by "
